@@ -31,7 +31,7 @@ TReset ==
      /\ lz' = [k \in 1..r.nk |-> FALSE]
      /\ pend' = [t \in Threads |-> NoOp]
 
-TCall == IsEvent("call") /\ LET r == Rec[l] IN Call(r.t, r.op, r.k, r.v, r.lazy)
+TCall == IsEvent("call") /\ LET r == Rec[l] IN Call(r.t, r.op, r.k, r.v, r.lazy, r.tk)
 
 TRet ==
   /\ IsEvent("ret")
